@@ -1,6 +1,8 @@
 """C02 - every produced object is well-formed: codes in range, metadata consistent."""
 from . import pipeline, routes, sizes, funcs
 
+from . import routes, fresh, flags, sizes, conv, dtype, carriers, funcs, ops, strings, pipeline, widths
+
 EXPLANATION = (
     "R1 ownership: every write to a .val buffer in the package is in set_val, a None initialiser, or a code-preserving re-arrangement / "
     "right shift; R2 the MIN/MAX terms handed to the overflow stage on every path of set_val, and those used by resize, normalise to the "
@@ -22,8 +24,12 @@ def run(ck):
     sizes.fields_written_only_in_resize(ck, "C02.R5")
     pipeline.overflow_dispatch(ck, "C02.R6", "C03.R2", roles)
     funcs.results_through_funnel(ck, "C02.R7")
-    from . import dtype, ops, fresh
     dtype.language_rules(ck, "C12.R1", "C12.R2")      # "spells exactly that format in its dtype string"
     sizes.no_size_rejection(ck, "C02.R8")
     ops.unary_ops(ck, "C08.R6")                        # operator results are rebuilt through the constructor
     fresh.returned_objects_fresh(ck, "C20.R1")
+    sizes.word_max_chain(ck, "C06.R3")                # metadata is computed for the capped word
+    sizes.best_sizes_assembly(ck, "C06.R2", "C06.R3", "C06.R4")
+    fresh.no_class_state_writes(ck, "C20.R7")
+    carriers.machine_carrier(ck, "C18.R5")
+    h_, _r = flags.handler_roles(ck, "C04.R1")
